@@ -550,10 +550,16 @@ def run_daemon(desc):
                 variants = broken_variants(new_text)
                 bk, bline, btext = variants[r.randrange(len(variants))]
                 wit['broken'] = [bk, bline]
+                failed_before = d.tail(200000).count('config.reload.failed')
                 d.rewrite_conf(btext)
                 d.signal(signal.SIGUSR1)
                 got = peer.drain(quiet=1.5, limit=20)
                 rx += got
+                if d.tail(200000).count('config.reload.failed') == failed_before:
+                    # the parser took the damaged file (a closing brace missing at the end of the file is tolerated): this was
+                    # a successful reload of another file, not a refused one - nothing to hold it to here
+                    res.count('daemon:damaged-file-accepted:' + bk)
+                    continue
                 if any(t in (3, None) for t, _ in got):
                     res.violation(f'C17/daemon:session-lost-by-a-refused-file:{bk}', f'the session ended after SIGUSR1 with a broken file ({bk} at line {bline})', dict(wit, log=d.tail(500)), cls)
                     continue
